@@ -1,6 +1,6 @@
 (* Dispatch.v — the single entry point the extracted driver calls:
    component number and flat input -> flat output. *)
-From RaftModel Require Import Base LogCache Config Commitment Compaction Node NodeCodec Candidate Lease Leader LeaderCodec.
+From RaftModel Require Import Base LogCache Config Commitment Compaction Node NodeCodec Candidate Lease Leader LeaderCodec Pipeline.
 Open Scope N_scope.
 
 Definition run_case (comp : N) (inp : list N) : list N :=
@@ -14,6 +14,7 @@ Definition run_case (comp : N) (inp : list N) : list N :=
   | 6 => run_nodeseq inp
   | 14 => run_candidate inp
   | 8 => run_leaderseq inp
+  | 16 => run_pipeline inp
   | 13 => run_lease inp
   | 1301 => run_validate_timing inp
   | 1302 => [min_check_interval]
